@@ -2,12 +2,13 @@
 
 Unlike harness/translate.py (static data only) this module translates FUNCTION BODIES.  It is
 deliberately tiny: it covers exactly the first-order, list-and-integer subset in which
-`superrec2/utils/subsequences.py` (C18), `superrec2/utils/range_min_query.py` (C17) and
-`superrec2/utils/disjoint_set.py` (C20) are written,
+`superrec2/utils/subsequences.py` (C18), `superrec2/utils/range_min_query.py` (C17),
+`superrec2/utils/disjoint_set.py` (C20) and `superrec2/utils/toposort.py` (C19: dicts, sets, deques) are written,
 and raises `Unsupported(node)` on anything else (never guesses).  The output is re-generated on every
 run of the check and compared with the hand-written model BY PROOF (lean/SRVerif/Proofs/SubseqPyEquiv.lean,
-lean/SRVerif/Proofs/RmqPyEquiv.lean, lean/SRVerif/Proofs/DsuPyEquiv.lean), so that the property theorems
-hold of "what the code says now" (lean/SRVerif/Properties/C18Code.lean, C17Code.lean, C20Code.lean).
+lean/SRVerif/Proofs/RmqPyEquiv.lean, lean/SRVerif/Proofs/DsuPyEquiv.lean, lean/SRVerif/Proofs/TopoPyEquiv*.lean),
+so that the property theorems hold of "what the code says now" (lean/SRVerif/Properties/C18Code.lean,
+C17Code.lean, C20Code.lean, C19Code.lean).
 
 Subset
 ------
@@ -114,6 +115,44 @@ Objects that change (C20)
   as `ignored_methods` (`__repr__`) are not translated; they are checked to read attributes and call
   translated methods only.
 
+Dicts, sets, deques (C19; prelude lean/SRVerif/Model/PyRtColl.lean)
+-------------------------------------------------------------------
+* Types: `Mapping[K, V]` / `Dict[K, V]` is the association list `List (K × V)` of the items in INSERTION order
+  (what Python specifies for a dict and its views); PRECONDITION: the keys of a dict PARAMETER are pairwise
+  different.  `Set[T]` is the list of the elements in insertion order, `Deque[T]` a list.  A `TypeVar` (`Node`)
+  is an opaque element type with `==` (`{α} [DecidableEq α]`; hashing is not modelled).
+* dict: `d[k]` (`Py.dictGet?`, `KeyError`), `d[k] = v` (`Py.dictSet`: a key that is present keeps its place),
+  `d[k] op= v` (load with `KeyError`, then store), `k in d` / `k not in d`, `d.get(k, default)`, `len(d)`,
+  iteration over `d` / `d.keys()` / `d.values()` / `d.items()` (`for k, v in ..`), `{k: v for x in seq}`
+  (`Py.dictOfList`), `list(d)`, `set(d)`, `deque(d)` (the keys).
+* set: `set()`, `set(xs)` (`Py.setOfList`: the distinct elements in order of first insertion), `s.add(v)`,
+  `s.discard(v)`, `s.remove(v)` (`KeyError`), `v in s`, `len(s)`, truth value.  ITERATION ORDER: Python does not
+  specify it.  (a) A set held by a dict parameter that nothing changes (`for succs in graph.values()`,
+  `graph[k]`) is given BY THE CALLER as the list of its elements in iteration order (an unchanged set iterates
+  in the same order every time); theorems quantify over every such listing.  (b) Every other set `s` iterates as
+  `ord_ s`, where `ord_ : List T → List T` is an explicit parameter of the generated function standing for the
+  order (it receives the elements in insertion order); theorems assume `Py.SetOrder ord_` only.  `set(s)` of a set
+  inserts in iteration order.  (Recorded limit: CPython's order may also depend on deleted entries; every function
+  of the insertion-ordered contents is covered, a dependence on the history beyond it is not.)  A loop body may
+  not change the collection it iterates over (Python raises RuntimeError).
+* deque (`from collections import deque`): `deque()`, `deque(xs)`, `d.append(v)`, `x = d.popleft()` (`IndexError`;
+  the call rebinds `d`), `d.remove(v)` (first occurrence, `ValueError`), iteration, `len`, truth value.
+* `while xs:` (or any test without a syntactic variant): the number of iterations is DECLARED in the ModuleSpec
+  (`fuel={"toposort.while1": "len(graph) + 1"}`, an expression over the live variables); `continue` allowed.
+* A module-level function that changes a PARAMETER in place (`indeg[x] -= 1` in `_toposort_all_bt`: found by a
+  syntactic fixed point, `mutating_functions`) is translated in state-passing style: it returns the new values of
+  those parameters with its result (`Except Err (P × ρ)`), a call rebinds the variables handed to them (they must be
+  locals, or such parameters of the caller; the variable may not be mentioned elsewhere in the statement).
+  Module-level functions may be recursive (declared fuel); a recursive call INSIDE A LOOP goes to the extra loop
+  parameter `rec_` (the function itself at the smaller fuel, `f.rec_ fuel_` at the call site of the loop).
+* In-place changes of a LOOP TARGET (`x.append(e)`, `x.reverse()`), two forms (`target_mutation`):
+  `for x in f(..)` over the result of a translated call that is not bound to a name (a new list of new lists that
+  dies with the loop): `x` may be changed, and MOVED into another list by the last statement that mentions it
+  (`ys.append(x)`); `for x in xs` over a local list of lists: the loop rebuilds `xs` from the final value of `x`
+  in each iteration (no `break` / `continue`, the body may not mention `xs`).  Both are exact because the
+  elements of a list built by translated code are pairwise different objects that nothing else references.
+* `list(reversed(x))`, `x.reverse()`.
+
 Normal form (what the hand-written equivalence proofs are stated against)
 -----------------------------------------------------------------------
 * `def f (params) : Except Err rho` -- `.error e` = Python raises `e`;
@@ -190,25 +229,68 @@ def is_struct(t):
     return isinstance(t, tuple) and t[0] == "struct"
 
 
+# Python `set` / `collections.deque` / `dict` (C19): a set is the list of its elements in INSERTION order
+# (`add` appends a new element, `remove` / `discard` erase it), a deque is a list, a dict is the association
+# list of its items in insertion order (`d[k] = v` keeps the place of a key that is present).
+
+
+def tset(t):
+    return ("set", t)
+
+
+def tdeque(t):
+    return ("deque", t)
+
+
+def tdict(k, v):
+    return ("dict", k, v)
+
+
+def is_set(t):
+    return isinstance(t, tuple) and t[0] == "set"
+
+
+def is_deque(t):
+    return isinstance(t, tuple) and t[0] == "deque"
+
+
+def is_dict(t):
+    return isinstance(t, tuple) and t[0] == "dict"
+
+
+def is_seq(t):
+    """list / set / deque: one element type, a Lean `List`."""
+    return is_list(t) or is_set(t) or is_deque(t)
+
+
+def is_coll(t):
+    return is_seq(t) or is_dict(t)
+
+
 def has_bot(t):
-    return t == BOT or ((is_list(t) or is_opt(t)) and has_bot(t[1]))
+    return (t == BOT or ((is_seq(t) or is_opt(t)) and has_bot(t[1]))
+            or (is_dict(t) and (has_bot(t[1]) or has_bot(t[2]))))
 
 
 def uses_elem(t):
-    return t == ELEM or ((is_list(t) or is_opt(t)) and uses_elem(t[1])) or (is_struct(t) and t[2])
+    return (t == ELEM or ((is_seq(t) or is_opt(t)) and uses_elem(t[1])) or (is_struct(t) and t[2])
+            or (is_dict(t) and (uses_elem(t[1]) or uses_elem(t[2]))))
 
 
 def has_list(t):
     """The value is (or holds) a mutable container: it must never be referenced twice."""
-    return is_list(t) or is_struct(t) or (is_opt(t) and has_list(t[1]))
+    return is_coll(t) or is_struct(t) or (is_opt(t) and has_list(t[1]))
 
 
 def fits(ty, want):
     """A term written at type `ty` elaborates unchanged at type `want` (`[]`, `none` are polymorphic)."""
     if ty == want or ty == BOT:
         return True
-    if (is_list(ty) and is_list(want)) or (is_opt(ty) and is_opt(want)):
+    if (is_list(ty) and is_list(want)) or (is_opt(ty) and is_opt(want)) or (is_set(ty) and is_set(want)) \
+            or (is_deque(ty) and is_deque(want)):
         return fits(ty[1], want[1])
+    if is_dict(ty) and is_dict(want):
+        return fits(ty[1], want[1]) and fits(ty[2], want[2])
     return False
 
 
@@ -221,6 +303,10 @@ def join(a, b, node):
         return INT
     if is_list(a) and is_list(b):
         return tlist(join(a[1], b[1], node))
+    if (is_set(a) and is_set(b)) or (is_deque(a) and is_deque(b)):
+        return (a[0], join(a[1], b[1], node))
+    if is_dict(a) and is_dict(b):
+        return tdict(join(a[1], b[1], node), join(a[2], b[2], node))
     if is_opt(a) or is_opt(b):
         # `None` or a value: Optional[T]; a plain value is embedded with `some`
         inner = join(a[1] if is_opt(a) else a, b[1] if is_opt(b) else b, node)
@@ -231,9 +317,12 @@ def join(a, b, node):
 
 
 def show_ty(t):
-    if is_list(t) or is_opt(t):
+    if is_seq(t) or is_opt(t):
         inner = show_ty(t[1])
-        return ("List " if is_list(t) else "Option ") + (f"({inner})" if " " in inner else inner)
+        return ("Option " if is_opt(t) else "List ") + (f"({inner})" if " " in inner else inner)
+    if is_dict(t):
+        k, v = show_ty(t[1]), show_ty(t[2])
+        return "List (" + (f"({k})" if " " in k else k) + " × " + (f"({v})" if " " in v else v) + ")"
     if is_struct(t):
         return t[1] + (" α" if t[2] else "")
     return t
@@ -245,7 +334,7 @@ LEAN_KEYWORDS = set(
     "set_option show structure syntax then theorem universe variable where with macro local "
     "partial unsafe opaque nomatch nofun this Type Prop Sort".split()
 )
-RESERVED = {"it_", "fuel_", "e_", "v_", "lt_", "ord_"}
+RESERVED = {"it_", "fuel_", "e_", "v_", "lt_", "ord_", "rec_", "p_"}
 # Lean constants that the GENERATED text itself mentions unqualified (`none`, `some x`, `true`, `decide (..)`,
 # `List.map ..`, `Int.toNat ..`, `Py.getInt? ..`): a Python local of that name would be bound by a Lean `let` /
 # pattern and silently CAPTURE those occurrences (`none = xs[i]; return None` would return `xs[i]`; a dead local
@@ -256,7 +345,10 @@ CAPTURED = {"none", "some", "true", "false", "decide", "List", "Option", "Nat", 
 # builtins whose Python meaning the translator relies on: a module or a function that rebinds one is rejected
 BUILTINS = {"min", "max", "len", "bool", "list", "range", "enumerate", "int", "None", "True", "False"}
 # names of the methods (of the classes being translated) that change their receiver: set by `translate_source`
-_MUT = {"methods": set()}
+# "functions": module-level functions that change a parameter in place -> positions of those parameters
+_MUT = {"methods": set(), "functions": {}}
+# methods of the built-in containers that change their receiver
+CONTAINER_MUTATORS = ("add", "discard", "remove", "reverse")
 INFER = "?infer"  # member of the `defined` set while types are being inferred (no binding checks)
 
 
@@ -420,6 +512,35 @@ def mut_receiver(node):
     return None
 
 
+def container_call(st):
+    """(name, method, [arguments]) when `st` is `name.add(v)` / `name.discard(v)` / `name.remove(v)` /
+    `name.reverse()` on a plain name (a set, deque or list: decided by the type of `name`)."""
+    if (isinstance(st, ast.Expr) and isinstance(st.value, ast.Call)
+            and isinstance(st.value.func, ast.Attribute) and st.value.func.attr in CONTAINER_MUTATORS
+            and isinstance(st.value.func.value, ast.Name) and not st.value.keywords
+            and len(st.value.args) == (0 if st.value.func.attr == "reverse" else 1)):
+        return st.value.func.value.id, st.value.func.attr, list(st.value.args)
+    return None
+
+
+def popleft_receiver(node):
+    """The deque `d` of a call `d.popleft()`."""
+    if (isinstance(node, ast.Call) and isinstance(node.func, ast.Attribute) and node.func.attr == "popleft"
+            and isinstance(node.func.value, ast.Name) and not node.args and not node.keywords):
+        return node.func.value.id
+    return None
+
+
+def mut_args(node):
+    """The variables handed, by the call `node`, to parameters that the called module-level function
+    changes in place: the call rebinds them (state-passing style)."""
+    if (isinstance(node, ast.Call) and isinstance(node.func, ast.Name)
+            and node.func.id in _MUT["functions"]):
+        return [a.id for i, a in enumerate(node.args)
+                if i in _MUT["functions"][node.func.id] and isinstance(a, ast.Name)]
+    return []
+
+
 def is_docstring(st):
     return (isinstance(st, ast.Expr) and isinstance(st.value, ast.Constant)
             and isinstance(st.value.value, str))
@@ -452,10 +573,17 @@ def assigned(stmts):
             out.add(aug_setitem(st)[0])
         if append_item(st):
             out.add(append_item(st)[0])
+        if container_call(st):
+            out.add(container_call(st)[0])
+        if isinstance(st, (ast.Assign, ast.AnnAssign)) and popleft_receiver(st.value):
+            out.add(popleft_receiver(st.value))
         if _MUT["methods"] and not isinstance(st, ast.FunctionDef):
             for sub in ast.walk(st):
                 if mut_receiver(sub):
                     out.add(mut_receiver(sub))
+        if _MUT["functions"] and not isinstance(st, ast.FunctionDef):
+            for sub in ast.walk(st):
+                out |= set(mut_args(sub))
         if isinstance(st, ast.If):
             out |= assigned(st.body) | assigned(st.orelse)
         if isinstance(st, ast.For):
@@ -523,6 +651,7 @@ class ModuleCtx:
         self.attr_seed = {}  # class name -> {attribute: type}: widenings found in an earlier pass
         self.dirty = False  # an attribute was widened in this pass: translate again
         self.deepcopy = False  # `from copy import deepcopy` at module level
+        self.deque = False  # `from collections import deque` at module level
         self.rebound = set()  # names of builtins outside BUILTINS (`set`, `deepcopy`) that the module rebinds
 
 
@@ -544,6 +673,13 @@ class FunctionTranslator:
         self.mut = self.kind == "method" and fn.name in self.mod.mutators.get(cls, ())
         self.recursive = any(self.is_self_call(sub) for sub in ast.walk(fn))
         self.uses_ord = False  # needs the parameter `ord_` (iteration order of a set)
+        self.ord_elem = NAT  # element type of the sets whose iteration order is `ord_`
+        self.ret_shares = False  # a `return [x]` / `return [x for x in ..]`: the result holds existing objects
+        self.loop_stack = []  # per enclosing loop being translated: does its body use `rec_` / `ord_`
+        # loop targets that are elements of a temporary list -> the statements (top level of the loop body, last
+        # mention of the target) that may MOVE them into another list
+        self.movable = {}
+        self.n_whiles = 0
         self.ret_alias = False  # the result may BE a parameter / an attribute (a second reference to it)
         self.local_fns = {}  # functions defined inside this one: python name -> signature
         self.in_return = False
@@ -584,6 +720,11 @@ class FunctionTranslator:
             self.types[p.arg] = self.annotation(ann, p)
         self.param_types = dict(self.types)
         self.vars = list(self.params)
+        # parameters changed in place (module-level functions only): returned with the result
+        self.mut_params = []
+        if cls is None and parent is None and fn.name in _MUT["functions"]:
+            self.mut_params = [self.params[i] for i in _MUT["functions"][fn.name] if i < len(self.params)]
+        self.listing_names = self.find_listing_names()
         for sub in ast.walk(fn):
             # `c1_`, `c2_`, ..: the lists built by lifted comprehensions
             ident = sub.id if isinstance(sub, ast.Name) else sub.arg if isinstance(sub, ast.arg) else ""
@@ -607,6 +748,16 @@ class FunctionTranslator:
                 if isinstance(v, ast.Attribute) and target_key(v) and self.kind == "method" \
                         and has_list(self.attr_types().get(v.attr, BOT)):
                     self.ret_alias = True  # the result IS an attribute
+                for n in ast.walk(v):
+                    # `return [x]`, `return [x for x in xs if ..]`: the result HOLDS an existing object
+                    if isinstance(n, ast.List) and any(isinstance(e, ast.Name) and has_list(self.types.get(e.id, BOT))
+                                                       for e in n.elts):
+                        self.ret_shares = True
+                    if isinstance(n, ast.ListComp) and isinstance(n.elt, ast.Name) \
+                            and is_list(self.ret_type) and has_list(self.ret_type[1]):
+                        self.ret_shares = True
+                if isinstance(v, ast.Name) and v.id in self.mut_params:
+                    raise Unsupported(sub, "a parameter that is changed in place is also returned")
         if self.kind == "init":
             self.attrs = {v[5:]: self.types[v] for v in self.vars if v.startswith("self.")}
             for at, ty in self.attrs.items():
@@ -617,6 +768,40 @@ class FunctionTranslator:
             self.ret_type = tstruct(cls, any(uses_elem(t) for t in self.attrs.values()))
 
     # ---- declarations
+
+    def find_listing_names(self):
+        """Names that only ever denote a set held by a dict PARAMETER that is never changed
+        (`for succs in graph.values()`, `for k, succs in graph.items()`): such a set is given by the caller as
+        the list of its elements IN ITERATION ORDER (nothing changes it, so the order is the same each time:
+        no `ord_`).  Every binding of the name must be of that form."""
+        good, bad = set(), set()
+        for sub in ast.walk(self.fn):
+            if isinstance(sub, ast.For) and isinstance(sub.iter, ast.Call) \
+                    and isinstance(sub.iter.func, ast.Attribute) and isinstance(sub.iter.func.value, ast.Name) \
+                    and not sub.iter.args and not sub.iter.keywords:
+                p, how = sub.iter.func.value.id, sub.iter.func.attr
+                if p in self.params and p not in self.mut_params and is_dict(self.types.get(p)):
+                    if how == "values" and isinstance(sub.target, ast.Name):
+                        good.add(id(sub.target))
+                    if how == "items" and isinstance(sub.target, ast.Tuple) and len(sub.target.elts) == 2 \
+                            and isinstance(sub.target.elts[1], ast.Name):
+                        good.add(id(sub.target.elts[1]))
+        names = set()
+        for sub in ast.walk(self.fn):
+            if isinstance(sub, ast.Name) and isinstance(sub.ctx, (ast.Store, ast.Del)):
+                (names if id(sub) in good else bad).add(sub.id)
+            if isinstance(sub, ast.arg):
+                bad.add(sub.arg)
+        return names - bad
+
+    def is_listing(self, node):
+        """`node` denotes a set held by a dict parameter that is never changed (see `find_listing_names`)."""
+        if isinstance(node, ast.Name):
+            return node.id in self.listing_names
+        if isinstance(node, ast.Subscript) and isinstance(node.value, ast.Name):
+            p = node.value.id
+            return p in self.params and p not in self.mut_params and is_dict(self.types.get(p))
+        return False
 
     def annotation(self, ann, where):
         if ann is None:
@@ -643,6 +828,18 @@ class FunctionTranslator:
                 if is_opt(inner):
                     raise Unsupported(ann, "nested Optional")
                 return topt(inner)
+            if ann.value.id in ("Set", "set", "Deque", "deque"):
+                inner = self.annotation(ann.slice, where)
+                if has_list(inner):
+                    raise Unsupported(ann, "set / deque of mutable values")
+                return tset(inner) if ann.value.id in ("Set", "set") else tdeque(inner)
+            if ann.value.id in ("Mapping", "Dict", "dict") and isinstance(ann.slice, ast.Tuple) \
+                    and len(ann.slice.elts) == 2:
+                k = self.annotation(ann.slice.elts[0], where)
+                v = self.annotation(ann.slice.elts[1], where)
+                if has_list(k) or is_opt(k):
+                    raise Unsupported(ann, "dict whose keys are not plain values")
+                return tdict(k, v)
         raise Unsupported(ann, "unsupported type annotation")
 
     def collect_vars(self, stmts):
@@ -820,9 +1017,14 @@ class FunctionTranslator:
         """The result type of the Lean function (with the new `self` for a method that changes it)."""
         if self.mut:
             return f"({show_ty(self.types['self'])} × {paren_ty(self.ret_type)})"
+        if self.mut_params:
+            parts = [paren_ty(self.param_types[p]) for p in self.mut_params] + [paren_ty(self.ret_type)]
+            return "(" + " × ".join(parts) + ")"
         return paren_ty(self.ret_type)
 
     def ret_text(self, v):
+        if self.mut_params:
+            return "(" + ", ".join([lean_name(p) for p in self.mut_params] + [v]) + ")"
         return f"(self, {v})" if self.mut else v
 
     # ---- type inference (flow-insensitive join, to a fixed point)
@@ -905,17 +1107,31 @@ class FunctionTranslator:
             elif setitem(st):
                 key, idx, value = setitem(st)
                 ty = self.expr(value, env, [])[1]
-                for _ in idx:
-                    ty = tlist(ty)
                 if key not in self.types and not self.is_attr_key(key):
                     raise Unsupported(st, f"unknown name `{key}`")
+                if is_dict(self.types.get(key)) and len(idx) == 1:
+                    ty = tdict(self.expr(idx[0], env, [])[1], ty)
+                else:
+                    for _ in idx:
+                        ty = tlist(ty)
                 self.set_type(key, ty, st)
             elif aug_setitem(st):
                 key, ix, op, value = aug_setitem(st)
                 if key not in self.types and not self.is_attr_key(key):
                     raise Unsupported(st, f"unknown name `{key}`")
                 load = ast.copy_location(ast.BinOp(left=st.target, op=op, right=value), st)
-                self.set_type(key, tlist(self.expr(load, env, [])[1]), st)
+                if is_dict(self.types.get(key)):
+                    self.set_type(key, tdict(self.expr(ix, env, [])[1], self.expr(load, env, [])[1]), st)
+                else:
+                    self.set_type(key, tlist(self.expr(load, env, [])[1]), st)
+            elif container_call(st) and not is_struct(self.types.get(container_call(st)[0])):
+                name, how, args = container_call(st)
+                if name not in self.types:
+                    raise Unsupported(st, f"unknown name `{name}`")
+                if how == "add":
+                    self.set_type(name, tset(self.expr(args[0], env, [])[1]), st)
+                elif args:
+                    self.expr(args[0], env, [])
             elif append_item(st):
                 key, ix, arg = append_item(st)
                 if key not in self.types and not self.is_attr_key(key):
@@ -933,7 +1149,8 @@ class FunctionTranslator:
                 env = self.drop_nn(env, [name])
             elif append_call(st):
                 name, arg = append_call(st)
-                self.set_type(name, tlist(self.expr(arg, env, [])[1]), st)
+                mk = tdeque if is_deque(self.types.get(name)) else tlist
+                self.set_type(name, mk(self.expr(arg, env, [])[1]), st)
             elif isinstance(st, ast.If):
                 st = self.split_test(st)
                 x, neg = self.none_test(st.test, env)
@@ -988,6 +1205,9 @@ class FunctionTranslator:
         if is_list(ty) and is_list(want) and is_opt(want[1]) and ty[1] == want[1][1] and not has_list(ty[1]):
             # a fresh list of values stored as a row of cells that may be `None`
             return f"(List.map some {text})"
+        if is_dict(ty) and is_dict(want) and ty[1] == want[1] and (ty[2], want[2]) == (NAT, INT):
+            # a fresh dict of non-negative ints stored where the values may become negative
+            return f"(List.map (fun p_ => (p_.1, ((p_.2 : Nat) : Int))) {text})"
         raise Unsupported(node, f"cannot use {show_ty(ty)} as {show_ty(want)}")
 
     def arith(self, node, l, lt, r, rt, op):
@@ -1023,8 +1243,9 @@ class FunctionTranslator:
         reference to an existing list (Python would share later in-place changes)."""
         if not has_list(ty) or self.dry:
             return
-        fresh = (isinstance(value, (ast.List, ast.ListComp))
-                 or (isinstance(value, ast.Call) and isinstance(value.func, ast.Name) and value.func.id == "list")
+        fresh = (isinstance(value, (ast.List, ast.ListComp, ast.DictComp))
+                 or (isinstance(value, ast.Call) and isinstance(value.func, ast.Name)
+                     and value.func.id in ("list", "set", "deque"))
                  or (isinstance(value, ast.BinOp) and isinstance(value.op, ast.Mult)))
         if isinstance(value, ast.Call) and self.fresh_call(value):
             fresh = True
@@ -1039,7 +1260,7 @@ class FunctionTranslator:
         if isinstance(f, ast.Name):
             if f.id in self.local_fns:
                 return self.local_fns[f.id].signature()
-            if self.parent is not None and f.id == self.fn.name:
+            if f.id == self.fn.name and (self.parent is not None or self.kind == "function"):
                 return self.signature()
             return self.mod.sigs.get(f.id)
         if isinstance(f, ast.Attribute) and isinstance(f.value, ast.Name) and is_struct(self.types.get(f.value.id)):
@@ -1057,8 +1278,17 @@ class FunctionTranslator:
         sig = self.callee_sig(node)
         return sig is not None and not sig.get("ret_alias")
 
-    def expr(self, node, defined, hoists):
-        """-> (Lean text, type).  `defined` = set of bound names (contains INFER during inference) and
+    def temp_call(self, node):
+        """The value of this call is a NEW list none of whose elements can be reached in another way:
+        the result of a translated function that never returns (or puts into its result) an existing
+        object.  Such a list, iterated without being bound to a name, dies with the loop."""
+        if not (isinstance(node, ast.Call) and isinstance(node.func, ast.Name)):
+            return False
+        sig = self.callee_sig(node)
+        return sig is not None and not sig.get("ret_alias") and not sig.get("ret_shares")
+
+    def expr(self, node, defined, hoists, want=None):
+        """-> (Lean text, type).  (`want`: the type of the place a dict comprehension is stored in.)  `defined` = set of bound names (contains INFER during inference) and
         of narrowings `nn(x)`; raising sub-expressions are appended to `hoists` as
         (tmp, option-valued text, Err) or (tmp, Except-valued text, None)."""
         if isinstance(node, ast.Constant):
@@ -1176,6 +1406,18 @@ class FunctionTranslator:
             return "[" + ", ".join(self.coerce(t, tt, ty, node) for t, tt in items) + "]", tlist(ty)
         if isinstance(node, ast.ListComp):
             return self.listcomp(node, defined, hoists)
+        if isinstance(node, ast.DictComp):
+            return self.dictcomp(node, defined, hoists, want)
+        if isinstance(node, ast.Subscript) and not isinstance(node.slice, ast.Slice) \
+                and isinstance(node.value, ast.Name) and is_dict(self.types.get(node.value.id)):
+            # `d[k]`: `KeyError` when `k` is not a key
+            s, st = self.expr(node.value, defined, hoists)
+            k, kt = self.expr(node.slice, defined, hoists)
+            if not self.dry and kt != st[1]:
+                raise Unsupported(node, "dict lookup with a key of another type")
+            t = self.tmp()
+            hoists.append((t, f"Py.dictGet? {s} {k}", ".KeyError"))
+            return t, st[2]
         if isinstance(node, ast.Subscript):
             s, st = self.expr(node.value, defined, hoists)
             if isinstance(node.slice, ast.Slice):
@@ -1258,6 +1500,38 @@ class FunctionTranslator:
                 return seq, tlist(et)
         return f"(List.map (fun {pat} => {e}) {seq})", tlist(et)
 
+    def dictcomp(self, node, defined, hoists, want=None):
+        """`{k: v for x in seq}` with non-raising `k`, `v`: the items in the order of `seq`, a later item
+        replacing the value of an equal earlier key in place (`Py.dictOfList`)."""
+        if len(node.generators) != 1 or node.generators[0].ifs or node.generators[0].is_async:
+            raise Unsupported(node, "dict comprehension with conditions / several generators")
+        gen = node.generators[0]
+        targets = loop_targets(gen)
+        for t in targets:
+            if t != "_" and (t in self.params or (t in self.types and INFER not in defined and t in defined)):
+                raise Unsupported(node, f"comprehension variable `{t}` is also a variable of the function")
+        seq, tys, pat = self.iter_parts(gen, defined, hoists)
+        saved = dict(self.types)
+        inner = []
+        try:
+            for t, ty in zip(targets, tys):
+                if t != "_":
+                    lean_name(t, node)
+                    self.types[t] = ty
+            inside = defined | {t for t in targets if t != "_"}
+            k, kt = self.expr(node.key, inside, inner)
+            v, vt = self.expr(node.value, inside, inner)
+        finally:
+            self.types = saved
+        if inner:
+            raise Unsupported(node, "raising expression inside a comprehension")
+        if has_list(kt) or is_opt(kt) or has_list(vt):
+            raise Unsupported(node, "dict comprehension over mutable values")
+        if want is not None and is_dict(want) and not self.dry:
+            k, kt = self.coerce(k, kt, want[1], node), want[1]
+            v, vt = self.coerce(v, vt, want[2], node), want[2]
+        return f"(Py.dictOfList (List.map (fun {pat} => ({k}, {v})) {seq}))", tdict(kt, vt)
+
     def translated_call(self, node, defined, hoists):
         """A call of a nested function, of a method of a translated class, or of the function itself:
         hoisted (it may raise); a method that changes its receiver `x` also rebinds `x`
@@ -1268,7 +1542,9 @@ class FunctionTranslator:
             raise Unsupported(node, "call of a function / method that is not translated (yet)")
         recursive = sig["name"] == self.name
         if recursive and self.loop_depth:
-            raise Unsupported(node, "recursive call inside a loop")
+            # the loop (a separate definition) takes the function itself, at the smaller fuel, as `rec_`
+            for fl in self.loop_stack:
+                fl["rec"] = True
         names = sig["params"]
         recv = None
         if isinstance(f, ast.Attribute):
@@ -1295,13 +1571,30 @@ class FunctionTranslator:
             texts[name] = self.coerce(t, ty, want, a)
         args = [texts[n] for n in names]
         t = self.tmp()
-        head = sig["name"] + (".rec_ fuel_" if recursive else "")
-        if sig["elem"]:
-            head += self.mod.elem_args
         if sig["ord"]:
-            self.need_ord(node)
-            head += " ord_"
+            self.need_ord(node, sig.get("ord_elem", NAT))
+        if recursive:
+            head = "rec_" if self.loop_depth else self.rec_head()
+        else:
+            head = sig["name"]
+            if sig["elem"]:
+                head += self.mod.elem_args
+            if sig["ord"]:
+                head += " ord_"
         pat = t
+        muts = sig.get("mut_params") or []
+        if muts:
+            # parameters that the callee changes in place: the call REBINDS the variables handed to them
+            pats = []
+            for m in muts:
+                a = actual[m]
+                if not isinstance(a, ast.Name):
+                    raise Unsupported(a, "argument changed in place by the callee that is not a variable")
+                self.check_mut_arg(a.id, sig["param_tys"][sig["params"].index(m)], node, defined)
+                pats.append(lean_name(a.id, a))
+            if len(set(pats)) != len(pats):
+                raise Unsupported(node, "the same variable handed to two parameters that are changed in place")
+            pat = "(" + ", ".join(pats + [t]) + ")"
         if recv is not None:
             r, _ = self.var_ref(recv, node, defined)
             if sig["mut"]:
@@ -1311,10 +1604,44 @@ class FunctionTranslator:
         hoists.append((pat, f"{head} " + " ".join(args), None))
         return t, sig["ret_ty"]
 
-    def need_ord(self, node):
-        if self.loop_depth:
-            raise Unsupported(node, "iteration over a set inside a loop")
+    def need_ord(self, node, elem=NAT):
+        """The function takes the parameter `ord_`: the iteration order of the sets of `elem`s."""
+        if elem not in (NAT, ELEM) and not (self.dry and has_bot(elem)):
+            raise Unsupported(node, f"iteration over a set of {show_ty(elem)}")
+        if self.uses_ord and self.ord_elem != elem and not has_bot(elem):
+            raise Unsupported(node, "iteration over sets of two different element types")
+        for fl in self.loop_stack:
+            fl["ord"] = True
         self.uses_ord = True
+        if not has_bot(elem):
+            self.ord_elem = elem
+
+    def rec_head(self):
+        """The function being translated, at the smaller fuel (a recursive call)."""
+        return f"{self.name}.rec_{self.elem_args()}{' ord_' if self.uses_ord else ''} fuel_"
+
+    def rec_type(self):
+        tys = " → ".join(paren_ty(self.param_types[p]) for p in self.params)
+        return f"{tys} → Except Py.Err {self.rho()}"
+
+    def check_mut_arg(self, name, want, node, defined):
+        """`name` is handed to a parameter that the callee changes in place: it must be a local (or a
+        parameter that this function itself returns changed), of exactly the callee's type, and it must
+        not be mentioned elsewhere in the statement (the call rebinds it)."""
+        if name in self.params and name not in self.mut_params:
+            raise Unsupported(node, "in-place change of a parameter (mutation visible to the caller)")
+        if name not in self.types or name == "self":
+            raise Unsupported(node, f"unknown name `{name}`")
+        if self.dry:
+            return
+        if name not in defined:
+            raise Unsupported(node, f"`{name}` may be unbound here")
+        self.no_narrowed([name], defined, node, "changed in place by a call")
+        if self.types[name] != want:
+            raise Unsupported(node, f"`{name}` is changed in place by the callee at another type")
+        root = self.cur_stmt
+        if root is None or sum(isinstance(n, ast.Name) and n.id == name for n in ast.walk(root)) != 1:
+            raise Unsupported(node, f"`{name}` is read in the same statement as a call that changes it")
 
     def check_receiver(self, recv, node, defined):
         """`recv.m(..)` changes `recv` in place: `recv` must be `self` inside a method that is translated
@@ -1367,7 +1694,11 @@ class FunctionTranslator:
 
     def call(self, node, defined, hoists):
         f = node.func
-        if isinstance(f, ast.Name) and (f.id in self.local_fns or (self.parent is not None and f.id == self.fn.name)):
+        if isinstance(f, ast.Name) and (f.id in self.local_fns or (
+                f.id == self.fn.name and (self.parent is not None or self.kind == "function"))):
+            return self.translated_call(node, defined, hoists)
+        if isinstance(f, ast.Name) and f.id in self.mod.sigs \
+                and (self.mod.sigs[f.id].get("mut_params") or self.mod.sigs[f.id].get("ord")):
             return self.translated_call(node, defined, hoists)
         if isinstance(f, ast.Attribute) and isinstance(f.value, ast.Name) \
                 and is_struct(self.types.get(f.value.id)) and not node.keywords:
@@ -1399,6 +1730,9 @@ class FunctionTranslator:
                     raise Unsupported(node, "`set` of anything but non-negative ints")
                 self.need_ord(node)
                 return f"(Py.listOfSet ord_ {s})", tlist(NAT)
+        got = self.coll_call(node, defined, hoists)
+        if got is not None:
+            return got
         if isinstance(f, ast.Name) and f.id in self.mod.sigs:
             sig = self.mod.sigs[f.id]
             if len(node.args) != len(sig["param_tys"]):
@@ -1429,7 +1763,7 @@ class FunctionTranslator:
         if isinstance(f, ast.Name) and len(node.args) == 1:
             if f.id == "len":
                 s, st = self.expr(node.args[0], defined, hoists)
-                if not is_list(st) and not (self.dry and st == BOT):
+                if not is_coll(st) and not (self.dry and st == BOT):
                     raise Unsupported(node, "len of something that is not a list")
                 return f"{s}.length" if re.fullmatch(r"[\w'.]+", s) else f"({s}).length", NAT
             if f.id == "bool":
@@ -1441,8 +1775,36 @@ class FunctionTranslator:
                 if is_list(st) and has_list(st[1]):
                     raise Unsupported(node, "shallow copy of a list of lists (the rows would be shared)")
                 return s, st
+        if popleft_receiver(node):
+            # `d.popleft()`: the first element; the call rebinds `d` (`IndexError` on an empty deque)
+            d = popleft_receiver(node)
+            root = self.cur_stmt
+            if not self.dry and not (isinstance(root, (ast.Assign, ast.AnnAssign)) and root.value is node):
+                raise Unsupported(node, "`popleft` is supported as `x = d.popleft()` only")
+            if d in self.params and d not in self.mut_params:
+                raise Unsupported(node, "in-place change of a parameter (mutation visible to the caller)")
+            text, ty = self.var_ref(d, node, defined)
+            if not is_deque(ty) and not (self.dry and ty == BOT):
+                raise Unsupported(node, "popleft on something that is not a deque")
+            t = self.tmp()
+            hoists.append((f"({text}, {t})", f"Py.popleft? {text}", ".IndexError"))
+            return t, (ty[1] if is_deque(ty) else BOT)
         if isinstance(f, ast.Attribute):
             recv, rt = self.expr(f.value, defined, hoists)
+            if f.attr == "get" and len(node.args) == 2 and (is_dict(rt) or (self.dry and rt == BOT)):
+                # `d.get(k, default)`: never raises
+                k, kt = self.expr(node.args[0], defined, hoists)
+                dflt, dt = self.expr(node.args[1], defined, hoists)
+                if is_dict(rt):
+                    if has_list(rt[2]):
+                        raise Unsupported(node, "`get` of a mutable value (aliasing)")
+                    if not self.dry and kt != rt[1]:
+                        raise Unsupported(node, "dict lookup with a key of another type")
+                    ty = join(rt[2], dt, node)
+                    if not self.dry and ty != rt[2]:
+                        raise Unsupported(node, "`get` with a default of another type")
+                    return f"((Py.dictGet? {recv} {k}).getD {self.coerce(dflt, dt, ty, node)})", ty
+                return "?", dt
             if f.attr == "bit_length" and not node.args:
                 if rt == INT:
                     return f"(Py.bitLengthInt {recv})", NAT
@@ -1461,6 +1823,67 @@ class FunctionTranslator:
                 return t, NAT
         raise Unsupported(node, "unsupported call")
 
+    def iter_text(self, node, defined, hoists):
+        """-> (Lean list of the elements of the collection `node` in ITERATION order, element type).
+        A list / deque iterates in order; a dict iterates over its keys in insertion order; a set held by a
+        dict parameter that is never changed is given by the caller in iteration order; the iteration order
+        of any other set is `ord_` applied to its elements in insertion order."""
+        if isinstance(node, ast.Call) and isinstance(node.func, ast.Attribute) and not node.args \
+                and not node.keywords and node.func.attr in ("keys", "values") \
+                and isinstance(node.func.value, ast.Name) and is_dict(self.types.get(node.func.value.id)):
+            s, sty = self.expr(node.func.value, defined, hoists)
+            if node.func.attr == "keys":
+                return f"(Py.dictKeys {s})", sty[1]
+            return f"(Py.dictValues {s})", sty[2]
+        s, sty = self.expr(node, defined, hoists)
+        if is_list(sty) or is_deque(sty):
+            return s, sty[1]
+        if is_dict(sty):
+            return f"(Py.dictKeys {s})", sty[1]
+        if is_set(sty):
+            if self.is_listing(node):
+                return s, sty[1]
+            if not isinstance(node, ast.Name):
+                raise Unsupported(node, "iteration over a set that is not a variable")
+            self.need_ord(node, sty[1])
+            return f"(ord_ {s})", sty[1]
+        if self.dry and sty == BOT:
+            return s, BOT
+        raise Unsupported(node, "iteration over something that is not a list, set, deque or dict")
+
+    def coll_call(self, node, defined, hoists):
+        """`set(..)`, `deque(..)`, `list(..)` of a collection, `list(reversed(x))`; None when `node` is not one."""
+        f = node.func
+        if not isinstance(f, ast.Name) or node.keywords:
+            return None
+        if f.id in ("set", "deque") and len(node.args) <= 1:
+            if f.id in self.mod.rebound or (f.id == "deque" and not self.mod.deque) \
+                    or f.id in self.types or any(isinstance(a, ast.Starred) for a in node.args):
+                return None
+            mk = tset if f.id == "set" else tdeque
+            if not node.args:
+                return "[]", mk(BOT)
+            seq, et = self.iter_text(node.args[0], defined, hoists)
+            if has_list(et) or is_opt(et):
+                raise Unsupported(node, f"`{f.id}` of values that are not plain")
+            return (f"(Py.setOfList {seq})" if f.id == "set" else seq), mk(et)
+        if f.id == "list" and len(node.args) == 1 and "list" not in self.types:
+            a = node.args[0]
+            if isinstance(a, ast.Call) and isinstance(a.func, ast.Name) and a.func.id == "reversed" \
+                    and len(a.args) == 1 and not a.keywords and "reversed" not in self.mod.rebound \
+                    and "reversed" not in self.types:
+                s, st = self.expr(a.args[0], defined, hoists)
+                if not (is_list(st) or is_deque(st)) and not (self.dry and st == BOT):
+                    raise Unsupported(node, "reversed() of something that is not a list")
+                if is_seq(st) and has_list(st[1]):
+                    raise Unsupported(node, "shallow copy of a list of lists (the rows would be shared)")
+                return f"({s}).reverse", tlist(st[1] if is_seq(st) else BOT)
+            if isinstance(a, ast.Name) and (is_dict(self.types.get(a.id)) or is_set(self.types.get(a.id))
+                                            or is_deque(self.types.get(a.id))):
+                seq, et = self.iter_text(a, defined, hoists)
+                return seq, tlist(et)
+        return None
+
     def boolval(self, node, defined, hoists):
         t, ty = self.expr(node, defined, hoists)
         if ty == BOOL or (self.dry and ty == BOT):
@@ -1472,7 +1895,7 @@ class FunctionTranslator:
             return f"{text} = true"
         if ty in (NAT, INT):
             return f"{text} ≠ 0"
-        if is_list(ty):
+        if is_coll(ty):
             return f"{text} ≠ []"
         if self.dry:
             return text
@@ -1508,6 +1931,18 @@ class FunctionTranslator:
                 return "False" if isinstance(op, ast.Is) else "True"
             l, lt = self.expr(node.left, defined, hoists)
             r, rt = self.expr(node.comparators[0], defined, hoists)
+            if isinstance(op, (ast.In, ast.NotIn)):
+                # `x in d` (a key of the dict), `x in s` (an element)
+                if not is_coll(rt) and not (self.dry and rt == BOT):
+                    raise Unsupported(node, "`in` on something that is not a collection")
+                if is_coll(rt) and not self.dry and lt != rt[1]:
+                    raise Unsupported(node, "`in` with an element of another type")
+                if uses_elem(lt) and not self.mod.has_deq:
+                    raise Unsupported(node, "`in` needs `==` on the elements")
+                if has_list(lt):
+                    raise Unsupported(node, "`in` on mutable values")
+                yes = f"Py.dictHas {r} {l} = true" if is_dict(rt) else f"{l} ∈ {r}"
+                return yes if isinstance(op, ast.In) else f"¬ ({yes})"
             ty = join(lt, rt, node)
             l, r = self.coerce(l, lt, ty, node), self.coerce(r, rt, ty, node)
             if isinstance(op, (ast.Eq, ast.NotEq)):
@@ -1573,13 +2008,16 @@ class FunctionTranslator:
     def state_pat(self, names):
         return tup([lean_name(n) for n in names])
 
+    def state_pat_with(self, names, subst):
+        return tup([subst.get(n, lean_name(n)) for n in names])
+
     def no_narrowed(self, names, defined, node, what):
         for v in names:
             if nn(v) in defined:
                 raise Unsupported(node, f"`{v}` is narrowed by an assert and {what}")
 
     def check_mutable(self, name, defined, st):
-        if name in self.params:
+        if name in self.params and name not in self.mut_params:
             raise Unsupported(st, "in-place change of a parameter (mutation visible to the caller)")
         if self.kind == "method" and name.startswith("self."):
             if not self.mut:
@@ -1625,6 +2063,22 @@ class FunctionTranslator:
             after = self.drop_nn(defined, names) | set(names)
             return self.wrap_hoists(hoists, [line] + cont(after), ctx)
 
+        if setitem(st) and is_dict(self.types.get(setitem(st)[0])):
+            # `d[k] = v`: the value, then the key; a key that is present keeps its place
+            key, idx, value = setitem(st)
+            self.check_mutable(key, defined, st)
+            base, want = self.place(key, st, defined)
+            if len(idx) != 1 or has_bot(want):
+                raise Unsupported(st, "item assignment on a dict is supported as `d[k] = v` only")
+            hoists = []
+            text, ty = self.expr(value, defined, hoists)
+            self.check_fresh(value, want[2], st)
+            kx, kt = self.expr(idx[0], defined, hoists)
+            if kt != want[1]:
+                raise Unsupported(st, "dict item assignment with a key of another type")
+            line = self.store(key, f"Py.dictSet {base} {kx} {self.coerce(text, ty, want[2], st)}", st)
+            return self.wrap_hoists(hoists, [line] + cont(defined), ctx)
+
         if setitem(st):
             key, idx, value = setitem(st)
             self.check_mutable(key, defined, st)
@@ -1656,6 +2110,29 @@ class FunctionTranslator:
                 hoists.append((t, f"{'Py.setInt?' if it == INT else 'Py.setNat?'} {c} {i} {v}", ".IndexError"))
                 v = t
             line = self.store(key, v, st)
+            return self.wrap_hoists(hoists, [line] + cont(defined), ctx)
+
+        if aug_setitem(st) and is_dict(self.types.get(aug_setitem(st)[0])):
+            # `d[k] op= v`: the dict and the key are evaluated once, the item is loaded (`KeyError`), then `v`
+            key, ix, op, value = aug_setitem(st)
+            self.check_mutable(key, defined, st)
+            base, want = self.place(key, st, defined)
+            if has_bot(want) or want[2] not in (NAT, INT):
+                raise Unsupported(st, "augmented item assignment on something that is not a dict of numbers")
+            hoists = []
+            kx, kt = self.expr(ix, defined, hoists)
+            if kt != want[1]:
+                raise Unsupported(st, "dict lookup with a key of another type")
+            t0 = self.tmp()
+            hoists.append((t0, f"Py.dictGet? {base} {kx}", ".KeyError"))
+            sym = {ast.Add: "+", ast.Sub: "-", ast.Mult: "*"}.get(type(op))
+            if sym is None:
+                raise Unsupported(st, "augmented item assignment with an operator other than + - *")
+            r, rt = self.expr(value, defined, hoists)
+            text, ty = self.arith(st, t0, want[2], r, rt, sym)
+            if ty == INT and want[2] == NAT:
+                raise Unsupported(st, "item that may become negative in a dict of non-negative ints")
+            line = self.store(key, f"Py.dictSet {base} {kx} {self.coerce(text, ty, want[2], st)}", st)
             return self.wrap_hoists(hoists, [line] + cont(defined), ctx)
 
         if aug_setitem(st):
@@ -1703,6 +2180,34 @@ class FunctionTranslator:
                               f"({row} ++ [{self.coerce(text, ty, want[1][1], st)}])", ".IndexError"))
             return self.wrap_hoists(hoists, [self.store(key, t, st)] + cont(defined), ctx)
 
+        cc = container_call(st)
+        if cc and cc[0] in self.types and not is_struct(self.types[cc[0]]):
+            # `s.add(v)`, `s.discard(v)`, `s.remove(v)` on a set; `d.remove(v)` on a deque / list (first
+            # occurrence; `ValueError` when absent, `KeyError` for a set); `x.reverse()` on a list
+            name, how, args = cc
+            self.check_mutable(name, defined, st)
+            base, want = self.place(name, st, defined)
+            if has_bot(want):
+                raise Unsupported(st, f"cannot infer the type of `{name}`")
+            hoists = []
+            if how == "reverse":
+                if not (is_list(want) or is_deque(want)):
+                    raise Unsupported(st, "reverse of something that is not a list")
+                return [self.store(name, f"{base}.reverse", st)] + cont(defined)
+            v, vt = self.expr(args[0], defined, hoists)
+            if vt != want[1] or has_list(vt):
+                raise Unsupported(st, f"`{how}` with an element of another type")
+            if uses_elem(vt) and not self.mod.has_deq:
+                raise Unsupported(st, f"`{how}` needs `==` on the elements")
+            if how == "remove" and is_seq(want):
+                t = self.tmp()
+                hoists.append((t, f"Py.remove? {base} {v}", ".KeyError" if is_set(want) else ".ValueError"))
+                return self.wrap_hoists(hoists, [self.store(name, t, st)] + cont(defined), ctx)
+            if how in ("add", "discard") and is_set(want):
+                fn = "Py.setAdd" if how == "add" else "Py.discard"
+                return self.wrap_hoists(hoists, [self.store(name, f"{fn} {base} {v}", st)] + cont(defined), ctx)
+            raise Unsupported(st, f"`{how}` on a value of type {show_ty(want)}")
+
         if isinstance(st, ast.Expr) and isinstance(st.value, ast.Call) and not append_call(st):
             # a call made for its effect: the receiver of a method that changes it is rebound
             if not mut_receiver(st.value):
@@ -1716,7 +2221,8 @@ class FunctionTranslator:
             if name == "_":
                 raise Unsupported(st, "assignment to `_`")
             hoists = []
-            text, ty = self.expr(value, defined, hoists)
+            text, ty = self.expr(value, defined, hoists,
+                                 want=None if self.is_attr_key(name) else self.types.get(name))
             if self.is_attr_key(name):
                 # `self.attr = e` in a method: a new `self`.  List attributes keep the list `__init__` gave
                 # them (they are changed in place only), so that a reference to one never goes stale.
@@ -1729,7 +2235,7 @@ class FunctionTranslator:
                 line = self.store(name, self.coerce(text, ty, want, st), st)
                 return self.wrap_hoists(hoists, [line] + cont(defined), ctx)
             want = self.types[name]
-            if is_list(want) and isinstance(value, ast.Name):
+            if is_coll(want) and isinstance(value, ast.Name):
                 raise Unsupported(st, "aliasing of a list (a later append would be shared)")
             self.check_fresh(value, want, st)
             if has_bot(want):
@@ -1741,15 +2247,17 @@ class FunctionTranslator:
         ap = append_call(st)
         if ap:
             name, arg = ap
-            if name in self.params:
+            if name in self.params and name not in self.mut_params:
                 raise Unsupported(st, "append to a parameter (mutation visible to the caller)")
             self.check_mutable(name, defined, st)
             base, want = self.place(name, st, defined)
-            if not is_list(want) or has_bot(want):
+            if not (is_list(want) or is_deque(want)) or has_bot(want):
                 raise Unsupported(st, "append to something that is not a list")
             hoists = []
             text, ty = self.expr(arg, defined, hoists)
-            self.check_fresh(arg, want[1], st)
+            if not (isinstance(arg, ast.Name) and any(st is m for m in self.movable.get(arg.id, ()))):
+                # (an element of a temporary list, moved into its new container: see `comp_for`)
+                self.check_fresh(arg, want[1], st)
             if self.is_attr_key(name):
                 if any(mut_receiver(sub) == "self" for sub in ast.walk(arg)):
                     raise Unsupported(st, "append to an attribute of a value computed by changing `self`")
@@ -1868,6 +2376,24 @@ class FunctionTranslator:
         it = st.iter
         targets = loop_targets(st)
         names = ["_" if t == "_" else lean_name(t, st) for t in targets]
+        self.iter_pairs = False  # the elements are pairs (key, value) in that order (`d.items()`)
+        if isinstance(it, ast.Call) and isinstance(it.func, ast.Attribute) and not it.args and not it.keywords \
+                and it.func.attr in ("keys", "values", "items") and isinstance(it.func.value, ast.Name) \
+                and (is_dict(self.types.get(it.func.value.id))
+                     or (self.dry and self.types.get(it.func.value.id) == BOT)):
+            # the views of a dict, in insertion order
+            s, sty = self.expr(it.func.value, defined, hoists)
+            kt, vt = (sty[1], sty[2]) if is_dict(sty) else (BOT, BOT)
+            if it.func.attr == "items":
+                if len(targets) != 2:
+                    raise Unsupported(st, "`.items()` needs a target `k, v`")
+                self.iter_pairs = True
+                return s, [kt, vt], f"({names[0]}, {names[1]})"
+            if len(targets) != 1:
+                raise Unsupported(st, "tuple target over a plain sequence")
+            if it.func.attr == "keys":
+                return f"(Py.dictKeys {s})", [kt], names[0]
+            return f"(Py.dictValues {s})", [vt], names[0]
         if isinstance(it, ast.Call) and isinstance(it.func, ast.Name) and not it.keywords:
             if it.func.id == "range" and len(it.args) in (1, 2) and len(targets) == 1:
                 args, tys = [], []
@@ -1896,15 +2422,68 @@ class FunctionTranslator:
                     raise Unsupported(it, "enumerate of something that is not a list")
                 return (f"({s}).zipIdx", [NAT, sty[1] if is_list(sty) else BOT],
                         f"({names[1]}, {names[0]})")
-            raise Unsupported(it, "unsupported iterable")
+            if it.func.id in ("range", "enumerate") or self.callee_sig(it) is None:
+                raise Unsupported(it, "unsupported iterable")
         if len(targets) != 1:
             raise Unsupported(st, "tuple target over a plain sequence")
-        s, sty = self.expr(it, defined, hoists)
-        if not is_list(sty) and not (self.dry and sty == BOT):
-            raise Unsupported(it, "iteration over something that is not a list")
-        return s, [sty[1] if is_list(sty) else BOT], names[0]
+        s, ety = self.iter_text(it, defined, hoists)
+        return s, [ety], names[0]
 
-    def loop_frame(self, st, defined, targets):
+    def target_mutation(self, st, defined):
+        """The loop target `x` of `for x in xs` is changed IN PLACE by the body (`x.append(e)`, `x.reverse()`).
+        -> None (no such change), or
+           ("temp", None): `xs` is the result of a translated call that is not bound to a name — a new list of new
+             lists that dies with the loop; `x` may also be MOVED into a container by the last statement of the
+             body that mentions it (`ys.append(x)`), since nothing else can reach it any more;
+           ("acc", xs): `xs` is a local list of lists; Python changes the elements of `xs`, so the loop REBUILDS
+             `xs` from the final value of `x` in each iteration (the Lean name `xs` is the accumulator inside the
+             loop: the body may not mention `xs`, nor `break` / `continue`).
+        Lists have value semantics; both forms are exact because the elements of a list built by translated
+        code are pairwise different objects that nothing else references (every stored list is fresh or moved)."""
+        targets = loop_targets(st)
+        changed = [t for t in targets if t in assigned(st.body)]
+        if not changed:
+            return None
+        if len(targets) != 1:
+            raise Unsupported(st, f"loop target `{changed[0]}` assigned in the loop body")
+        x = targets[0]
+        for sub in ast.walk(ast.Module(body=st.body, type_ignores=[])):
+            if isinstance(sub, ast.Name) and sub.id == x and isinstance(sub.ctx, (ast.Store, ast.Del)):
+                raise Unsupported(st, f"loop target `{x}` assigned in the loop body")
+            if isinstance(sub, (ast.For, ast.comprehension)) and x in loop_targets(sub):
+                raise Unsupported(st, f"loop target `{x}` assigned in the loop body")
+        if self.temp_call(st.iter):
+            # the only store of `x`: `ys.append(x)` at the top level of the body, after which `x` is not mentioned
+            moves = []
+            for i, b in enumerate(st.body):
+                ap = append_call(b)
+                if ap and isinstance(ap[1], ast.Name) and ap[1].id == x:
+                    if ap[0] == x or x in reads(st.body[i + 1:]):
+                        raise Unsupported(b, f"`{x}` is used after it was stored in another list")
+                    moves.append(b)
+            return ("temp", moves)
+        if isinstance(st.iter, ast.Name) and st.iter.id not in self.params and st.iter.id in defined \
+                and is_list(self.types.get(st.iter.id)) and is_list(self.types[st.iter.id][1]):
+            xs = st.iter.id
+            if xs in reads(st.body) or xs in assigned(st.body):
+                raise Unsupported(st, f"the loop body uses the list `{xs}` whose elements it changes")
+            for sub in ast.walk(self.fn):
+                # (a callee that puts existing objects into its result: the elements could be the caller's)
+                tv = stmt_target(sub) if isinstance(sub, (ast.Assign, ast.AnnAssign)) and not tuple_assign(sub) \
+                    and not setitem(sub) else None
+                if tv and tv[0] == xs and isinstance(tv[1], ast.Call):
+                    sig = self.callee_sig(tv[1])
+                    if sig is not None and (sig.get("ret_shares") or sig.get("ret_alias")):
+                        raise Unsupported(sub, f"the elements of `{xs}` may be shared with an argument of this call "
+                                               "and are changed in place later")
+            for sub in ast.walk(ast.Module(body=st.body, type_ignores=[])):
+                if isinstance(sub, (ast.Break, ast.Continue)):
+                    raise Unsupported(sub, "break / continue in a loop that changes the elements it iterates over")
+            return ("acc", xs)
+        raise Unsupported(st, f"loop target `{x}` is changed in place (supported: over a local list of lists, "
+                              "or over the result of a translated call)")
+
+    def loop_frame(self, st, defined, targets, mode=None):
         """State variables and free variables of a loop body."""
         if st.orelse:
             raise Unsupported(st, "loop with an else clause")
@@ -1914,13 +2493,17 @@ class FunctionTranslator:
                 continue
             if t in defined:
                 raise Unsupported(st, f"loop target `{t}` overwrites a live variable")
-            if t in assigned(st.body):
+            if t in assigned(st.body) and mode is None:
                 raise Unsupported(st, f"loop target `{t}` assigned in the loop body")
+        if mode is not None and mode[0] == "acc":
+            body_assigned = body_assigned | {mode[1]}
         state = [v for v in self.vars if v in body_assigned and v in defined and v not in targets]
         for v in state:
             if has_bot(self.types[v]):
                 raise Unsupported(st, f"cannot infer the type of `{v}`")
         used = reads(st.body) | (reads([st.test]) if isinstance(st, ast.While) else set())
+        if self.mut_params and contains(st.body, (ast.Return,)):
+            used |= set(self.mut_params)  # `return v` gives the changed parameters back too
         free = [v for v in self.vars if v in used and v in defined and v not in state and v not in targets]
         self.no_narrowed(state + free, defined, st, "used by a loop")
         self.n_loops += 1
@@ -1932,22 +2515,38 @@ class FunctionTranslator:
     def elem_args(self):
         return self.mod.elem_args if self.elem_used() else ""
 
-    def binder_text(self, names, params=False):
+    def ord_binder(self):
+        t = show_ty(self.ord_elem)
+        return f" (ord_ : List {t} → List {t})"
+
+    def binder_text(self, names, params=False, flags=None):
         out = ""
         if self.elem_used():
             out += self.mod.elem_binders
-        if self.uses_ord and params:
-            out += " (ord_ : List Nat → List Nat)"
+        if self.uses_ord and (params or (flags and flags["ord"])):
+            out += self.ord_binder()
+        if flags and flags["rec"]:
+            out += f" (rec_ : {self.rec_type()})"
         for v in names:
             ty = self.param_types[v] if params else self.types[v]
             out += f" ({lean_name(v)} : {show_ty(ty)})"
         return out
 
-    def loop_call_site(self, name, free, seed, state, cont, ctx, defined):
+    def loop_args(self, free, flags):
+        """Arguments of a loop function: the element operations, `ord_`, the function itself at the smaller
+        fuel (`rec_`: at the top level of the function it is `f.rec_ .. fuel_`), the free variables."""
+        args = self.elem_args()
+        if flags and flags["ord"]:
+            args += " ord_"
+        if flags and flags["rec"]:
+            args += " rec_" if self.loop_depth else f" ({self.rec_head()})"
+        return args + "".join(" " + lean_name(v) for v in free)
+
+    def loop_call_site(self, name, free, seed, state, cont, ctx, defined, flags=None, init=None):
         pat = self.state_pat(state)
-        args = self.elem_args() + "".join(" " + lean_name(v) for v in free)
+        args = self.loop_args(free, flags)
         ret = ctx.raw("v_")
-        lines = [f"match {name}{args} {seed} {pat} with",
+        lines = [f"match {name}{args} {seed} {init or pat} with",
                  f"| .err e_ => {ctx.err('e_')}"]
         lines += [f"| .ret v_ => {ret[0]}"] if len(ret) == 1 else ["| .ret v_ =>"] + indent(ret)
         lines += [f"| .next {pat} =>"] + indent(cont(defined))
@@ -1962,29 +2561,56 @@ class FunctionTranslator:
             if t != "_" and (has_bot(ty) or self.types[t] != ty):
                 raise Unsupported(st, f"loop target `{t}` is also used at another type")
         for v in reads([st.iter]) & assigned(st.body):
-            if is_list(self.types.get(v)):
+            if is_coll(self.types.get(v)):
                 raise Unsupported(st, f"the loop body changes the list `{v}` it iterates over")
-        state, free, name = self.loop_frame(st, defined, targets)
+        pairs = self.iter_pairs
+        mode = self.target_mutation(st, defined)
+        state, free, name = self.loop_frame(st, defined, targets, mode)
         pat = self.state_pat(state)
         sigma = tup_ty([self.types[v] for v in state])
         rho = self.rho()
-        args = self.elem_args() + "".join(" " + lean_name(v) for v in free)
-        rec = [f"{name}{args} it_ {pat}"]
-        lctx = Ctx(ret=lambda v: [f".ret {self.ret_text(v)}"], err=lambda e: f".err {e}",
-                   brk=lambda d: [f".next {pat}"], cont=lambda d: rec, raw=lambda v: [f".ret {v}"])
-        inner = self.drop_nn(defined, assigned(st.body)) | {t for t in targets if t != "_"}
+        flags = {"rec": False, "ord": False}
+        self.loop_stack.append(flags)
         self.loop_depth += 1
+        moved = set()
         try:
-            body = self.comp(st.body, lambda d: rec, lctx, inner)
+            # (the recursive call of the loop function: its arguments are known once the body is translated)
+            hole = f"\x00{name}\x00"
+            rec = [hole]
+            step = rec
+            if mode is not None and mode[0] == "acc":
+                xs = mode[1]
+                step = [f"let {lean_name(xs)} : {show_ty(self.types[xs])} := "
+                        f"{lean_name(xs)} ++ [{lean_name(targets[0])}]", hole]
+            elif mode is not None:
+                moved = {targets[0]} - set(self.movable)
+                for t in moved:
+                    self.movable[t] = mode[1]
+            lctx = Ctx(ret=lambda v: [f".ret {self.ret_text(v)}"], err=lambda e: f".err {e}",
+                       brk=lambda d: [f".next {pat}"], cont=lambda d: rec, raw=lambda v: [f".ret {v}"])
+            inner = self.drop_nn(defined, assigned(st.body)) | {t for t in targets if t != "_"}
+            body = self.comp(st.body, lambda d: step, lctx, inner)
+            call = f"{name}{self.loop_args(free, flags)} it_ {pat}"
         finally:
             self.loop_depth -= 1
-        elem_ty = tup_ty(list(reversed(tys))) if len(tys) == 2 else show_ty(tys[0])
-        text = [f"def {name}{self.binder_text(free)} :",
+            self.loop_stack.pop()
+            for t in moved:
+                del self.movable[t]
+        body = [l.replace(hole, call) for l in body]
+        if pairs:
+            elem_ty = tup_ty(tys)
+        else:
+            elem_ty = tup_ty(list(reversed(tys))) if len(tys) == 2 else show_ty(tys[0])
+        text = [f"def {name}{self.binder_text(free, flags=flags)} :",
                 f"    List {paren_ty(elem_ty)} → {paren_ty(sigma)} → Py.Ctl {paren_ty(sigma)} {rho}",
                 f"  | [], {pat} => .next {pat}",
                 f"  | {elem_pat} :: it_, {pat} =>"] + indent(body, 4)
         self.aux.append("\n".join(text))
-        site = self.loop_call_site(name, free, seq, state, cont, ctx, defined)
+        init = None
+        if mode is not None and mode[0] == "acc":
+            # the rebuilt list starts empty; what the loop leaves in `xs` is the list of the changed elements
+            init = self.state_pat_with(state, {mode[1]: "[]"})
+        site = self.loop_call_site(name, free, seq, state, cont, ctx, defined, flags=flags, init=init)
         return self.wrap_hoists(hoists, site, ctx)
 
     def while_variant(self, st):
@@ -2022,8 +2648,29 @@ class FunctionTranslator:
                                   "exactly once at the top level of the body)")
         return x
 
+    def declared_fuel(self, st, defined):
+        """A `while` loop without a syntactic variant: the number of iterations DECLARED for it in the
+        ModuleSpec (key `<function>.while<k>`, an expression over the variables live before the loop; that
+        it suffices is part of the equivalence proofs: `Err.Diverged` is never a claim about Python)."""
+        self.n_whiles += 1
+        src = self.mod.fuel.get(f"{self.qual}.while{self.n_whiles}")
+        if src is None:
+            return None
+        hoists = []
+        fuel, fty = self.expr(ast.parse(src, mode="eval").body, defined, hoists)
+        if hoists or fty != NAT:
+            raise Unsupported(st, "the declared fuel must be a non-raising expression of type Nat")
+        return fuel
+
     def comp_while(self, st, cont, ctx, defined):
-        x = self.while_variant(st)
+        try:
+            fuel = f"(Py.bitLength {lean_name(self.while_variant(st))})"
+            declared = False
+        except Unsupported:
+            fuel = self.declared_fuel(st, defined)
+            declared = True
+            if fuel is None:
+                raise
         self.cur_stmt = st.test
         if self.may_raise(st.test):
             raise Unsupported(st, "raising expression in a loop condition")
@@ -2032,23 +2679,30 @@ class FunctionTranslator:
         pat = self.state_pat(state)
         sigma = tup_ty([self.types[v] for v in state])
         rho = self.rho()
-        args = self.elem_args() + "".join(" " + lean_name(v) for v in free)
-        rec = [f"{name}{args} fuel_ {pat}"]
-        lctx = Ctx(ret=lambda v: [f".ret {self.ret_text(v)}"], err=lambda e: f".err {e}",
-                   brk=lambda d: [f".next {pat}"], cont=None, raw=lambda v: [f".ret {v}"])
+        flags = {"rec": False, "ord": False}
+        self.loop_stack.append(flags)
         self.loop_depth += 1
         try:
+            hole = f"\x00{name}\x00"
+            rec = [hole]
+            lctx = Ctx(ret=lambda v: [f".ret {self.ret_text(v)}"], err=lambda e: f".err {e}",
+                       brk=lambda d: [f".next {pat}"], cont=(lambda d: rec) if declared else None,
+                       raw=lambda v: [f".ret {v}"])
             body = self.comp(st.body, lambda d: rec, lctx, self.drop_nn(defined, assigned(st.body)))
+            call = f"{name}{self.loop_args(free, flags)} fuel_ {pat}"
         finally:
             self.loop_depth -= 1
-        text = [f"def {name}{self.binder_text(free)} :",
+            self.loop_stack.pop()
+        if flags["rec"]:
+            raise Unsupported(st, "recursive call inside a while loop")
+        body = [l.replace(hole, call) for l in body]
+        text = [f"def {name}{self.binder_text(free, flags=flags)} :",
                 f"    Nat → {paren_ty(sigma)} → Py.Ctl {paren_ty(sigma)} {rho}",
                 f"  | 0, {pat} => if {c} then .err .Diverged else .next {pat}",
                 f"  | fuel_ + 1, {pat} =>",
                 f"    if {c} then"] + indent(body, 6) + [f"    else .next {pat}"]
         self.aux.append("\n".join(text))
-        return self.count(self.loop_call_site(name, free, f"(Py.bitLength {lean_name(x)})", state,
-                                              cont, ctx, defined))
+        return self.count(self.loop_call_site(name, free, fuel, state, cont, ctx, defined, flags=flags))
 
     # ---- whole function
 
@@ -2090,8 +2744,8 @@ class FunctionTranslator:
         src = self.mod.fuel.get(self.qual)
         if src is None:
             raise Unsupported(self.fn, "recursive function without a declared fuel")
-        if self.elem_used() or self.uses_ord:
-            raise Unsupported(self.fn, "recursive function over opaque elements / sets")
+        if self.elem_used() and self.mod.elem_args:
+            raise Unsupported(self.fn, "recursive function over elements with an explicit ordering")
         hoists = []
         saved = self.dry
         try:
@@ -2102,11 +2756,14 @@ class FunctionTranslator:
             raise Unsupported(self.fn, "the declared fuel must be a non-raising expression of type Nat")
         tys = " → ".join(paren_ty(self.param_types[p]) for p in self.params)
         pats = ", ".join(lean_name(p) for p in self.params)
-        rec = [f"def {self.name}.rec_ : Nat → {tys} → Except Py.Err {self.rho()}",
+        # (opaque elements / the set order are fixed parameters of the recursion)
+        fixed = (self.mod.elem_binders if self.elem_used() else "") + (self.ord_binder() if self.uses_ord else "")
+        rec = [f"def {self.name}.rec_{fixed} : Nat → {tys} → Except Py.Err {self.rho()}",
                f"  | 0, {', '.join('_' for _ in self.params)} => .error .Diverged",
                f"  | fuel_ + 1, {pats} =>"] + indent(body, 4)
         args = " ".join(lean_name(p) for p in self.params)
-        return ["\n".join(rec), "\n".join([head, f"  {self.name}.rec_ {fuel} {args}"])]
+        ord_ = " ord_" if self.uses_ord else ""
+        return ["\n".join(rec), "\n".join([head, f"  {self.name}.rec_{ord_} {fuel} {args}"])]
 
     def check_moves(self):
         """Value semantics is exact as long as no object is changed while it can be reached through two
@@ -2119,7 +2776,7 @@ class FunctionTranslator:
         for n in ast.walk(ast.Module(body=self.fn_body, type_ignores=[])):
             for c in ast.iter_child_nodes(n):
                 parent[c] = n
-        safe_calls = {"len", "deepcopy", "list", "enumerate", "bool", "set"}
+        safe_calls = {"len", "deepcopy", "list", "enumerate", "bool", "set", "deque", "reversed"}
 
         def leaks(n):
             up = parent.get(n)
@@ -2128,7 +2785,36 @@ class FunctionTranslator:
                 return False
             if isinstance(up, ast.Call) and isinstance(up.func, ast.Name) and up.func.id in safe_calls:
                 return False
+            if isinstance(up, ast.Call) and n.id in mut_args(up) and sum(a is n for a in up.args) == 1:
+                # handed to a parameter that the callee changes in place and gives back (the call rebinds the
+                # variable); a translated callee keeps no other reference to it (`ret_alias` / `ret_shares`)
+                sig = self.callee_sig(up)
+                if sig is not None and not sig.get("ret_alias") and not sig.get("ret_shares") \
+                        and up.args.index(n) in _MUT["functions"].get(up.func.id, ()):
+                    return False
             return True
+
+        def rebound_each_time(v, loops, pos, changes):
+            """Inside the outermost loop of the leak at `pos`, every in-place change of `v` (positions `changes`,
+            all before `pos`) is preceded, in the same iteration, by a NEW binding of `v`: `v` is the target of an
+            enclosing loop that also encloses the changes, or the body of the outermost loop binds `v` afresh at
+            its top level before any of them."""
+            def binds(st2):
+                tv2 = stmt_target(st2) if isinstance(st2, (ast.Assign, ast.AnnAssign)) else None
+                return bool(tv2) and tv2[0] == v
+
+            changes = [c for c in changes if not binds(flat[c][0])]
+            for m in loops:
+                if isinstance(m, ast.For) and v in loop_targets(m) and all(m in flat[c][1] for c in changes):
+                    return True
+            for b in loops[0].body:
+                tv = stmt_target(b) if isinstance(b, (ast.Assign, ast.AnnAssign)) else None
+                if tv and tv[0] == v:
+                    at = next((i for i, (s2, _, _) in enumerate(flat) if s2 is b), None)
+                    return at is not None and all(at < c for c in changes) and at < pos
+                if v in self.assigned_([b]) or any(isinstance(n, ast.Name) and n.id == v for n in ast.walk(b)):
+                    return False
+            return False
 
         def visit(stmts, loops, acc):
             for st in stmts:
@@ -2156,6 +2842,9 @@ class FunctionTranslator:
                 simple = not isinstance(st, (ast.For, ast.While, ast.If))
                 changes = simple and v in self.assigned_([st]) and not (
                     isinstance(st, (ast.Assign, ast.AnnAssign)) and stmt_target(st) and stmt_target(st)[0] == v)
+                if isinstance(st, ast.For) and isinstance(st.iter, ast.Name) and st.iter.id == v \
+                        and any(t in assigned(st.body) for t in loop_targets(st)):
+                    changes = True  # the loop changes the elements of `v` in place (see `target_mutation`)
                 if changes and leak_at is not None:
                     raise Unsupported(st, f"`{v}` is changed in place after a reference to it was handed on "
                                           f"(line {flat[leak_at[0]][0].lineno})")
@@ -2164,10 +2853,12 @@ class FunctionTranslator:
                 if here and leak_at is None:
                     leak_at = (pos, loops)
                     # a change earlier in the same loop comes later in the next iteration
-                    for st2, loops2, _ in flat[:pos]:
-                        if loops and loops2[:1] == loops[:1] and v in self.assigned_([st2]) \
-                                and not isinstance(st2, (ast.For, ast.While, ast.If)):
-                            raise Unsupported(st2, f"`{v}` is changed in place in a loop that also hands it on")
+                    earlier = [i for i, (st2, loops2, _) in enumerate(flat[:pos])
+                               if loops and loops2[:1] == loops[:1] and v in self.assigned_([st2])
+                               and not isinstance(st2, (ast.For, ast.While, ast.If))]
+                    if earlier and not rebound_each_time(v, loops, pos, earlier):
+                        raise Unsupported(flat[earlier[0]][0],
+                                          f"`{v}` is changed in place in a loop that also hands it on")
 
     def structure_text(self):
         """The Lean structure of a class, from the attributes its `__init__` stores."""
@@ -2190,7 +2881,10 @@ class FunctionTranslator:
             "params": list(self.params),
             "mut": self.mut,
             "ord": self.uses_ord,
+            "ord_elem": self.ord_elem,
             "ret_alias": self.ret_alias,
+            "ret_shares": self.ret_shares,
+            "mut_params": list(self.mut_params),
         }
 
 
@@ -2202,8 +2896,11 @@ class ModuleSpec:
     def __init__(self, prop, source, namespace, functions, defs_file, equiv_file, proofs_module,
                  equiv, property_modules, refute, imports=(), int_ty=NAT, elem_lt=False,
                  equiv_custom=None, refute_custom=None, refute_prelude=(), note=None, param_types=None,
-                 fuel=None, ignored_methods=()):
+                 fuel=None, ignored_methods=(), prelude="SRVerif.Model.PyRt",
+                 refute_against="the hand-written model"):
         self.prop = prop
+        self.refute_against = refute_against  # what the bounded refutation search compares the generated code with
+        self.prelude = prelude  # the run-time prelude the generated definitions import
         self.source = source  # path relative to the repository
         self.namespace = namespace
         self.functions = functions  # python functions, `Class.method` for methods (`__init__` first)
@@ -2328,9 +3025,52 @@ def mutating_methods(methods):
         out |= more
 
 
+MUTATING_METHODS = {"append", "appendleft", "add", "discard", "remove", "reverse", "popleft", "pop", "clear",
+                    "extend", "extendleft", "insert", "sort", "update", "setdefault", "popitem", "rotate",
+                    "difference_update", "intersection_update", "symmetric_difference_update"}
+
+
+def mutating_functions(fns, names):
+    """Module-level functions that change one of their parameters in place -> positions of those parameters:
+    the function stores into / deletes from the parameter, calls a mutating method of a built-in container on
+    it, or hands it to such a parameter of another function of the module (least fixed point).  Such a function
+    is translated in state-passing style (it returns the new values of those parameters with its result)."""
+    params = {n: [a.arg for a in fns[n].args.args] for n in names if n in fns}
+    out = {n: set() for n in params}
+
+    def base_name(e):
+        while isinstance(e, (ast.Attribute, ast.Subscript)):
+            e = e.value
+        return e.id if isinstance(e, ast.Name) else None
+
+    for n in params:
+        for sub in ast.walk(fns[n]):
+            hit = None
+            if isinstance(sub, (ast.Subscript, ast.Attribute)) and isinstance(sub.ctx, (ast.Store, ast.Del)):
+                hit = base_name(sub)
+            if isinstance(sub, ast.Call) and isinstance(sub.func, ast.Attribute) \
+                    and sub.func.attr in MUTATING_METHODS:
+                hit = base_name(sub.func.value)
+            if hit in params[n]:
+                out[n].add(params[n].index(hit))
+    while True:
+        more = False
+        for n in params:
+            for sub in ast.walk(fns[n]):
+                if isinstance(sub, ast.Call) and isinstance(sub.func, ast.Name) and sub.func.id in out:
+                    for i, a in enumerate(sub.args):
+                        if i in out[sub.func.id] and isinstance(a, ast.Name) and a.id in params[n] \
+                                and params[n].index(a.id) not in out[n]:
+                            out[n].add(params[n].index(a.id))
+                            more = True
+        if not more:
+            return {n: sorted(ix) for n, ix in out.items() if ix}
+
+
 def translate_source(text, spec):
     """-> (Lean text of the definitions, signatures).  Raises Unsupported."""
     saved = set(_MUT["methods"])
+    saved_fns = dict(_MUT["functions"])
     try:
         seeds = {}
         for _ in range(6):
@@ -2342,23 +3082,25 @@ def translate_source(text, spec):
         raise Unsupported("module", "the types of the attributes do not converge")
     finally:
         _MUT["methods"] = saved
+        _MUT["functions"] = saved_fns
 
 
 def _translate_source(text, spec, seeds):
     tree = ast.parse(text)
     fns, classes = {}, {}
     wanted = {f.split(".")[0] for f in spec.functions if "." in f}
-    rebound, deepcopy_ok = set(), False
+    rebound, deepcopy_ok, deque_ok = set(), False, False
+    special = ("set", "deepcopy", "deque", "reversed")
     for st in ast.walk(tree):
         # names the translator gives a meaning to although they are not in BUILTINS
-        if isinstance(st, (ast.FunctionDef, ast.ClassDef)) and st.name in ("set", "deepcopy"):
+        if isinstance(st, (ast.FunctionDef, ast.ClassDef)) and st.name in special:
             rebound.add(st.name)
-        if isinstance(st, ast.Name) and isinstance(st.ctx, (ast.Store, ast.Del)) and st.id in ("set", "deepcopy"):
+        if isinstance(st, ast.Name) and isinstance(st.ctx, (ast.Store, ast.Del)) and st.id in special:
             rebound.add(st.id)
-        if isinstance(st, ast.arg) and st.arg in ("set", "deepcopy"):
+        if isinstance(st, ast.arg) and st.arg in special:
             rebound.add(st.arg)
         if isinstance(st, (ast.Import, ast.ImportFrom)) and st not in tree.body:
-            rebound |= {"set", "deepcopy"}
+            rebound |= set(special)
     for st in tree.body:
         bound = []
         if isinstance(st, (ast.Import, ast.ImportFrom)):
@@ -2370,8 +3112,14 @@ def _translate_source(text, spec, seeds):
                         deepcopy_ok = True
                     else:
                         rebound.add("deepcopy")
-                if (a.asname or a.name) == "set":
-                    rebound.add("set")
+                if (a.asname or a.name) == "deque":
+                    if isinstance(st, ast.ImportFrom) and st.module == "collections" and a.name == "deque" \
+                            and st.level == 0:
+                        deque_ok = True
+                    else:
+                        rebound.add("deque")
+                if (a.asname or a.name) in ("set", "reversed"):
+                    rebound.add(a.asname or a.name)
         elif isinstance(st, (ast.FunctionDef, ast.ClassDef)):
             bound = [st.name]
         elif isinstance(st, ast.Assign):
@@ -2398,10 +3146,12 @@ def _translate_source(text, spec, seeds):
     mod = spec.module_ctx(elem or ("Element",))
     mod.attr_seed = seeds
     mod.deepcopy = deepcopy_ok and "deepcopy" not in rebound
+    mod.deque = deque_ok and "deque" not in rebound
     mod.rebound = rebound
     for cname, methods in classes.items():
         mod.mutators[cname] = mutating_methods(methods)
     _MUT["methods"] = set().union(*mod.mutators.values()) if mod.mutators else set()
+    _MUT["functions"] = mutating_functions(fns, [n for n in spec.functions if "." not in n])
     out, sigs = [], {}
     for name in spec.functions:
         cls = None
@@ -2416,7 +3166,8 @@ def _translate_source(text, spec, seeds):
             raise Unsupported(tree, f"function `{name}` not found in {spec.source}")
         for sub in ast.walk(fn):
             if isinstance(sub, ast.Call) and isinstance(sub.func, ast.Name) \
-                    and (sub.func.id in fns or sub.func.id in classes) and sub.func.id not in mod.sigs:
+                    and (sub.func.id in fns or sub.func.id in classes) and sub.func.id not in mod.sigs \
+                    and not (cls is None and sub.func.id == name):
                 raise Unsupported(sub, "call of another function of the module")
         ft = FunctionTranslator(fn, mod=mod, cls=cls)
         text_fn = ft.translate()
@@ -2447,7 +3198,7 @@ def defs_file_text(spec, sha, body):
         "  harness/translate_py.py and SRVerif/Model/PyRt.lean (core Lean only).\n"
         + note +
         "-/\n"
-        "import SRVerif.Model.PyRt\n\n"
+        f"import {spec.prelude}\n\n"
         "set_option linter.unusedVariables false\n\n"
         f"namespace {spec.namespace}\nopen SR\n\n{body}\n\nend {spec.namespace}\n"
     )
@@ -2743,7 +3494,125 @@ DSU = ModuleSpec(
     ],
 )
 
-SPECS = {"C18": SUBSEQ, "C17": RMQ, "C20": DSU}
+TOPO = ModuleSpec(
+    prop="C19",
+    source="src/superrec2/utils/toposort.py",
+    namespace="SR.Gen.Topo",
+    # (`find_cycle` is not part of C19: left out, like every function that is not named here)
+    functions=["toposort", "_toposort_all_bt", "toposort_all"],
+    defs_file="SRVerif/Generated/TopoPy.lean",
+    equiv_file="SRVerif/Generated/TopoPyEquiv.lean",
+    proofs_module="SRVerif.Proofs.TopoPyEquivAll",
+    imports=["SRVerif.Spec.Toposort"],
+    prelude="SRVerif.Model.PyRtColl",
+    int_ty=INT,
+    # DECLARED bounds (that they suffice is part of the equivalence proofs): the `while starts:` loop of
+    # `toposort` pops each vertex at most once; `_toposort_all_bt` removes one vertex per level of recursion
+    fuel={"toposort.while1": "len(graph) + 1", "_toposort_all_bt": "len(graph) + 1"},
+    note=("  Nodes are opaque values with `==` (`{α} [DecidableEq α]`; the theorems instantiate `α := Nat`).\n"
+          "  A `dict` is the association list of its items in insertion order (`Py.dictGet?` / `Py.dictSet`;\n"
+          "  `KeyError` = `Except.error .KeyError`); PRECONDITION: the keys of a dict PARAMETER are pairwise\n"
+          "  different.  A `set` is the list of its elements in insertion order (`Py.setAdd` / `Py.discard` /\n"
+          "  `Py.remove?`); the sets held by the parameter `graph`, which nothing changes, are given by the\n"
+          "  caller as lists IN ITERATION ORDER; the iteration order of every other set is the explicit\n"
+          "  parameter `ord_`, applied to the elements in insertion order (theorems assume `Py.SetOrder ord_`\n"
+          "  only: the elements, each once).  A `deque` is a list (`Py.popleft?`).  `int` values are `Int`s.\n"
+          "  `_toposort_all_bt` changes its parameter `indeg` in place: it returns the new dict with its result\n"
+          "  (state-passing style), a call rebinds the variable handed to it.  It recurses on a DECLARED fuel\n"
+          "  (`.rec_`; its main loop takes the function at the smaller fuel as `rec_`), as does the `while`\n"
+          "  loop of `toposort` (`Err.Diverged` when it runs out: never, by the equivalence proofs).  Lists\n"
+          "  have value semantics (no list is reachable through two references: checked syntactically; the\n"
+          "  loop `for subresult in results: .. subresult.reverse()` rebuilds `results`).\n"
+          "  `Except.error e` = the Python function raises `e`.\n"),
+    equiv={},
+    # Statements about the generated functions at node type Nat.  `toposort` iterates no set of its own: it is
+    # EQUAL to the model's function (result and exception) on every graph with pairwise different keys, unless
+    # the model runs out of fuel (it never does: C19_total / C19_malformed).  `toposort_all` is parametric in
+    # the iteration order of its sets where the model fixes one: for EVERY order its result is a permutation of
+    # the model's, and, directly, a duplicate-free list of exactly the topological orderings.
+    equiv_custom=[
+        ("gen_toposort_eq_model",
+         "{g : Toposort.Graph} (hk : (Toposort.keys g).Nodup) (hfuel : Toposort.toposort g ≠ .error .fuel)",
+         "toposort g = TopoPyProofs.conv (Toposort.toposort g)",
+         "SR.TopoPyProofs.toposort_eq hk hfuel"),
+        ("gen_bt_spec",
+         "{ord : List Nat → List Nat} (hord : Py.SetOrder ord) {g : Toposort.Graph} (hwf : Toposort.WF g)\n"
+         "    (fuel : Nat) (done starts : List Nat) (I : Toposort.Indeg) (hinv : Toposort.Inv g done starts I)\n"
+         "    (hfuel : g.length - done.length < fuel)",
+         "∃ rs, _toposort_all_bt.rec_ ord fuel starts g I = .ok (I, rs) ∧ rs.Nodup ∧\n"
+         "      ∀ r, r ∈ rs ↔ Toposort.Greedy g done r.reverse",
+         "SR.TopoPyProofs.bt_rec_spec hord hwf fuel done starts I hinv hfuel"),
+        ("gen_toposort_all_spec",
+         "{ord : List Nat → List Nat} (hord : Py.SetOrder ord) {g : Toposort.Graph} (hwf : Toposort.WF g)",
+         "∃ os, toposort_all ord g = .ok os ∧ os.Nodup ∧ ∀ o, o ∈ os ↔ Toposort.IsTopo g o",
+         "SR.TopoPyProofs.toposort_all_spec hord hwf"),
+        ("gen_toposort_all_perm_model",
+         "{ord : List Nat → List Nat} (hord : Py.SetOrder ord) {g : Toposort.Graph} (hwf : Toposort.WF g)",
+         "∃ os ms, toposort_all ord g = .ok os ∧ Toposort.toposortAll g = .ok ms ∧ os.Perm ms",
+         "SR.TopoPyProofs.toposort_all_perm hord hwf"),
+        ("gen_toposort_all_malformed",
+         "(ord : List Nat → List Nat) {g : Toposort.Graph} (hk : (Toposort.keys g).Nodup)\n"
+         "    (hbad : ∃ p ∈ g, ∃ v ∈ p.2, v ∉ Toposort.keys g)",
+         "toposort_all ord g = .error .KeyError",
+         "SR.TopoPyProofs.toposort_all_malformed ord hk hbad"),
+    ],
+    property_modules=["C19Code"],
+    refute_against="the specification (permutations of the keys filtered by IsTopo; KeyError on a non-key successor)",
+    refute={},
+    # Bounded refutation search (classification only, never evidence).  What is compared is what the PROPERTY
+    # observes: for `toposort_all` (under three iteration orders) whether it raises and which exception, whether
+    # an ordering is repeated, and the SET of orderings — against the permutations of the keys filtered by the
+    # specification `IsTopo`; for `toposort` the exception, None-ness and the VALIDITY of the ordering (not
+    # which one).  A rewrite that produces the orderings in another order, or another valid ordering, makes the
+    # proof script stale without being refuted.  Scope: every digraph on <= 3 vertices (self-loops included),
+    # some on 4 and 5, and graphs with a successor that is not a key.
+    refute_prelude=[
+        "open SR.Toposort in",
+        "def digraph (n bits : Nat) : Graph :=",
+        "  (List.range n).map fun i => (i, (List.range n).filter fun j => (bits >>> (i * n + j)) % 2 == 1)",
+        "open SR.Toposort in",
+        "def topoCases : List Graph :=",
+        "  ((List.range 4).flatMap fun n => (List.range (2 ^ (n * n))).map fun b => digraph n b) ++",
+        "  ((List.range 40).map fun k => digraph 4 (k * 1637 % 65536)) ++",
+        "  [[(4, [0, 1]), (5, [0, 2]), (0, []), (1, []), (2, [3]), (3, [1])], [(0, [1]), (1, [7])], [(0, [5])],",
+        "   [(3, [1]), (1, [2]), (2, [1, 0]), (0, [])], [(0, [1, 2, 3, 4]), (1, []), (2, []), (3, []), (4, [])],",
+        "   [(2, []), (0, [2, 9])]]",
+        "def permsOf : List Nat → List (List Nat)",
+        "  | [] => [[]]",
+        "  | x :: xs => (permsOf xs).flatMap fun p => (List.range (p.length + 1)).map fun i => p.take i ++ x :: p.drop i",
+        "def insO (x : List Nat) : List (List Nat) → List (List Nat)",
+        "  | [] => [x]",
+        "  | y :: ys => if x < y then x :: y :: ys else if x = y then y :: ys else y :: insO x ys",
+        "def asSet (l : List (List Nat)) : List (List Nat) := l.foldr insO []",
+        "open SR.Toposort in",
+        "def wantAll (g : Graph) : Except Py.Err (List (List Nat) × Bool) :=",
+        "  if g.all (fun p => p.2.all fun v => (keys g).contains v) then",
+        "    .ok (asSet ((permsOf (keys g)).filter fun o => decide (IsTopo g o)), true)",
+        "  else .error .KeyError",
+        "def gotAll (ord : List Nat → List Nat) (g : Toposort.Graph) : Except Py.Err (List (List Nat) × Bool) :=",
+        "  match toposort_all ord g with",
+        "  | .ok os => .ok (asSet os, decide (os.Nodup))",
+        "  | .error e => .error e",
+        "open SR.Toposort in",
+        "def wantOne (g : Graph) : Except Py.Err (Bool × Bool) :=",
+        "  match wantAll g with",
+        "  | .ok (os, _) => .ok (os.isEmpty, true)",
+        "  | .error e => .error e",
+        "def gotOne (g : Toposort.Graph) : Except Py.Err (Bool × Bool) :=",
+        "  match toposort g with",
+        "  | .ok none => .ok (true, true)",
+        "  | .ok (some o) => .ok (false, decide (Toposort.IsTopo g o))",
+        "  | .error e => .error e",
+    ],
+    refute_custom=[
+        ("toposort", "topoCases", "g", "gotOne g", "wantOne g"),
+        ("toposort_all", "topoCases", "g", "gotAll (fun l => l) g", "wantAll g"),
+        ("toposort_all_reversed_sets", "topoCases", "g", "gotAll List.reverse g", "wantAll g"),
+        ("toposort_all_rotated_sets", "topoCases", "g", "gotAll (fun l => l.drop 1 ++ l.take 1) g", "wantAll g"),
+    ],
+)
+
+SPECS = {"C18": SUBSEQ, "C17": RMQ, "C20": DSU, "C19": TOPO}
 
 
 def write_if_changed(path, text):
@@ -2871,10 +3740,11 @@ def _tie(spec, repo=None):
         return done("ok", f"ok (sha256 {sha})")
     witnesses, err = refute(spec, sigs)
     if witnesses:
-        what = "; ".join(f"{f} differs from the model at {w}" for f, w in sorted(witnesses.items()))
+        against = "the model" if spec.refute_against == "the hand-written model" else spec.refute_against
+        what = "; ".join(f"{f} differs from {against} at {w}" for f, w in sorted(witnesses.items()))
         return done("broken", f"unavailable: equivalence refuted (sha256 {sha}): {what}",
-                    failing=[f"translator tie: gen_{f}_eq_model is false: generated {f} differs from the "
-                             f"hand-written model at {w}" for f, w in sorted(witnesses.items())],
+                    failing=[f"translator tie: gen_{f}_eq_model is false: generated {f} differs from "
+                             f"{spec.refute_against} at {w}" for f, w in sorted(witnesses.items())],
                     witnesses=witnesses, log=log[-3000:])
     why = ("the equivalence proofs no longer apply to the generated normal form, and no input in the bounded "
            "scope distinguishes the generated functions from the model (proof script stale)")
